@@ -831,7 +831,7 @@ fn c09_rate_x(max_items: u32, twin: bool) {
     _ => RateOp::BufferCountTime(1 + e::choose(2) as usize, w),
   };
   // throttle's window length may depend on the item that opens the window: w+1 for items above a symbolic threshold
-  let dep = matches!(op, RateOp::Throttle(..)) && e::choose_bool();
+  let dep = !twin && matches!(op, RateOp::Throttle(..)) && e::choose_bool();
   let dep_th = Val::var();
   let script = draw_script(max_items, true);
   let kind = e::choose(2);
@@ -1473,7 +1473,7 @@ pub fn harnesses2() -> Vec<HarnessDef> {
   add("c08_timer", vec!["C08"], "timer: item once, not before the due time, then complete", |_| "delays 0..3; 4 optional-run steps of 0..2 then drain".to_string(), Box::new(|_| c08_timer()), 2_000_000, 2_000_000, false);
   add("c08_async", vec!["C08", "C13"], "from_future, from_future_result, from_stream, from_stream_result relay exactly the scripted values / error, nothing before the executor runs", |t| format!("futures pending 0..2 polls; streams of <= {} items each pending 0..1 polls, error at every position", if t { 4 } else { 3 }), Box::new(|t| c08_async(if t { 4 } else { 3 })), 2_000_000, 20_000_000, false);
   add("c09_rate", vec!["C09", "C01"], "debounce, throttle/throttle_time x {leading, tailing, all}, sample(interval), buffer_with_time, buffer_with_count_and_time on the virtual clock: only source items, at most once, in order; exact timed models for debounce and throttle; buffer laws", |t| format!("<= {} symbolic items with gaps 0..3; windows 1..2; at every instant timers-first or source-first; executor timely or late; LocalPool and ANY-order", if t { 4 } else { 3 }), Box::new(|t| c09_rate(if t { 4 } else { 3 })), 3_000_000, 40_000_000, true);
-  add("c13_rate_twin", vec!["C13", "C09"], "scheduler-using operators (debounce, throttle x3, sample, buffer_with_time, buffer_with_count_and_time): a clone of the same operator value subscribed a second time over its own hot input must not change the first subscription's output (no handle / buffer / window shared between subscriptions)", |t| format!("<= {} symbolic items; the twin's input gets an item right before each of ours", if t { 4 } else { 3 }), Box::new(|t| c09_rate_x(if t { 4 } else { 3 }, true)), 400_000, 40_000_000, true);
+  add("c13_rate_twin", vec!["C13", "C09"], "scheduler-using operators (debounce, throttle x3, sample, buffer_with_time, buffer_with_count_and_time): a clone of the same operator value subscribed a second time over its own hot input must not change the first subscription's output (no handle / buffer / window shared between subscriptions)", |t| format!("<= {} symbolic items; the twin's input gets an item right before or after each of ours", if t { 3 } else { 2 }), Box::new(|t| c09_rate_x(if t { 3 } else { 2 }, true)), 6_000_000, 40_000_000, true);
   add("c19_tasks", vec!["C19"], "schedule(): one-shot, subscribing and repeating tasks; cancellation at every point; run orders; never early, at most once / consecutive seq, nothing after unsubscribe() returned", |t| format!("{} tasks; delays none/0/1/2; periods 1..2; LocalPool and ANY-order", if t { 3 } else { 2 }), Box::new(|t| c19_tasks(if t { 3 } else { 2 })), 700_000, 40_000_000, true);
   add("c16_producers", vec!["C16"], "interval / from_iter(counting) / from_stream(endless) under intermediate operators and every early-terminating operator, producer in main and notifier position: no live task one period after the terminal, pulls bounded", |t| format!("{} intermediate operators; periods 1..2", if t { 2 } else { 1 }), Box::new(|t| c16_producers(if t { 2 } else { 1 })), 2_000_000, 20_000_000, true);
   v
@@ -1664,7 +1664,7 @@ fn all_logs_of(p: Probe) -> Vec<Ev> {
 /// hot inputs emit alongside ours, and it is unsubscribed at another chosen moment. A's log must
 /// be identical: no counter, flag, buffer, queue, timer slot or teardown registry may live in the
 /// operator value.
-fn c13_twin(k: usize) {
+fn c13_twin(k: usize, family: usize) {
   use crate::cat::Op2;
   let unary = {
     let mut v = model::C03_OPS.to_vec();
@@ -1673,7 +1673,13 @@ fn c13_twin(k: usize) {
   };
   let nsched = 7usize;
   let nbin = crate::cat::OPS2.len();
-  let which = e::choose((nsched + nbin + unary.len()) as u32) as usize;
+  // one harness per operator family, so that each can be explored exhaustively
+  let which = match family {
+    0 => e::choose(nsched as u32) as usize,
+    1 => nsched + e::choose(nbin as u32) as usize,
+    _ => nsched + nbin + e::choose(unary.len() as u32) as usize,
+  };
+  let two_inputs = family == 1;
   let p = if which >= nsched + nbin { Some(draw_params(unary[which - nsched - nbin], k as u32, 10)) } else { None };
   let b_at = e::choose(k as u32 + 1) as usize;
   let b_unsub = e::choose(k as u32 + 2) as usize; // k+1 = never
@@ -1722,7 +1728,7 @@ fn c13_twin(k: usize) {
             b_live = false;
           }
         }
-        let tag = e::choose(2) as usize;
+        let tag = if two_inputs { e::choose(2) as usize } else { 0 };
         let ev = match e::choose(3) {
           0 => Ev::Next(Val::var()),
           1 => Ev::Complete,
@@ -1743,7 +1749,8 @@ fn c13_twin(k: usize) {
           }
         }
         world::run_fifo_until_stalled(64);
-        if e::choose_bool() {
+        // the clock only matters to the scheduler family
+        if family == 0 && e::choose_bool() {
           world::advance(1);
           world::run_fifo_until_stalled(64);
         }
@@ -1782,7 +1789,8 @@ fn phased(base: usize, kind: u32) -> Obs {
 /// its own, then B as before. B's log must be identical: whatever A went through, nothing of it may be left in the
 /// operator value (flags, latches, counters, and the captured state of user closures, which each subscription must
 /// get as a fresh clone).
-fn c13_successive(k: usize, only_stateful: bool) {
+fn c13_successive(k: usize, family: usize) {
+  let only_stateful = family == 0;
   use crate::cat::Op2;
   let unary = {
     let mut v = model::C03_OPS.to_vec();
@@ -1791,7 +1799,12 @@ fn c13_successive(k: usize, only_stateful: bool) {
   };
   let nstate = 4usize;
   let nbin = crate::cat::OPS2.len();
-  let which = if only_stateful { e::choose(nstate as u32) as usize } else { nstate + e::choose((nbin + unary.len()) as u32) as usize };
+  let which = match family {
+    0 => e::choose(nstate as u32) as usize,
+    1 => nstate + e::choose(nbin as u32) as usize,
+    _ => nstate + nbin + e::choose(unary.len() as u32) as usize,
+  };
+  let _ = only_stateful;
   let p = if which >= nstate + nbin { Some(draw_params(unary[which - nstate - nbin], k as u32, 10)) } else { None };
   let kinds = [e::choose(2), e::choose(2)];
   let name = if which < nstate {
@@ -1900,35 +1913,21 @@ fn c13_successive(k: usize, only_stateful: bool) {
 }
 
 pub fn harnesses4() -> Vec<HarnessDef> {
-  vec![HarnessDef {
-    id: "c13_successive",
-    props: vec!["C13"],
-    about: "successive subscriptions of clones of one operator value: the second one's log does not depend on what the first one went through (errors included); every unary and two-input operator over handle and Subject inputs, and map / filter_map / combine_latest / take_while with stateful FnMut closures",
-    bounds: |t| format!("{} events for the first and {} for the second subscription; inputs created per subscription", if t { 4 } else { 3 }, if t { 4 } else { 3 }),
-    f: Box::new(|t| c13_successive(if t { 4 } else { 3 }, false)),
-    budget_quick: 600_000,
-    budget_thorough: 40_000_000,
-    thorough_only: false,
-    sampled: true,
-  }, HarnessDef {
-    id: "c13_stateful",
-    props: vec!["C13"],
-    about: "map / filter_map / combine_latest / take_while with stateful FnMut closures: a second subscription of a clone starts from the closure's state at build time, whatever an earlier subscription did to its own copy",
-    bounds: |t| format!("{} events for the first and {} for the second subscription, exhaustive", if t { 4 } else { 3 }, if t { 4 } else { 3 }),
-    f: Box::new(|t| c13_successive(if t { 4 } else { 3 }, true)),
-    budget_quick: 2_000_000,
-    budget_thorough: 40_000_000,
-    thorough_only: false,
-    sampled: false,
-  }, HarnessDef {
-    id: "c13_twin",
-    props: vec!["C13"],
-    about: "non-interference: a clone of the same operator value subscribed a second time (at any moment, with busy inputs, unsubscribed at any moment) leaves the first subscription's log unchanged; 7 scheduler operators, 8 two-input operators, every unary operator",
-    bounds: |t| format!("{} events on 2 hot inputs; twin subscribe / unsubscribe moments chosen; hook-FIFO executor", if t { 4 } else { 3 }),
-    f: Box::new(|t| c13_twin(if t { 4 } else { 3 })),
-    budget_quick: 600_000,
-    budget_thorough: 40_000_000,
-    thorough_only: false,
-    sampled: true,
-  }]
+  fn hd(id: &'static str, about: &'static str, bounds: fn(bool) -> String, f: Box<dyn Fn(bool) + Send + Sync>, sampled: bool) -> HarnessDef {
+    HarnessDef { id, props: vec!["C13"], about, bounds, f, budget_quick: 3_000_000, budget_thorough: 40_000_000, thorough_only: false, sampled }
+  }
+  fn bs(t: bool) -> String {
+    format!("{} events for the first and {} for the second subscription; inputs created per subscription (handle or Subject)", if t { 4 } else { 3 }, if t { 4 } else { 3 })
+  }
+  fn bt(t: bool) -> String {
+    format!("{} events on the hot inputs; twin subscribe / unsubscribe moments chosen; hook-FIFO executor", if t { 4 } else { 3 })
+  }
+  vec![
+    hd("c13_stateful", "map / filter_map / combine_latest / take_while with stateful FnMut closures: a second subscription of a clone starts from the closure's state at build time, whatever an earlier subscription did to its own copy", bs, Box::new(|t| c13_successive(if t { 4 } else { 3 }, 0)), false),
+    hd("c13_successive_binary", "successive subscriptions of clones of one two-input operator value: the second one's log does not depend on what the first one went through (errors included)", bs, Box::new(|t| c13_successive(if t { 4 } else { 3 }, 1)), false),
+    hd("c13_successive_unary", "the same for every unary operator of the catalogue", bs, Box::new(|t| c13_successive(if t { 4 } else { 3 }, 2)), true),
+    hd("c13_twin_sched", "non-interference: a clone of the same operator value subscribed a second time (at any moment, with busy inputs, unsubscribed at any moment) leaves the first subscription's log unchanged; observe_on, delay, debounce, throttle, buffer_with_time, buffer_with_count_and_time, sample(interval)", bt, Box::new(|t| c13_twin(if t { 4 } else { 3 }, 0)), false),
+    hd("c13_twin_binary", "the same for the 8 two-input operators", bt, Box::new(|t| c13_twin(if t { 4 } else { 3 }, 1)), false),
+    hd("c13_twin_unary", "the same for every unary operator of the catalogue", bt, Box::new(|t| c13_twin(if t { 4 } else { 3 }, 2)), true),
+  ]
 }
